@@ -25,7 +25,7 @@ func budgetForFam(fam string, nsPositioner bool, nEdges, nNodes int) spec.Budget
 }
 
 func c01Resolutions(r *rng, o spec.Options) []spec.Resolution {
-	res := []spec.Resolution{{Adv: "seeded", AdvSeed: r.next(), T0: int64(r.next() >> 2), Entropy: r.next()}}
+	res := []spec.Resolution{{Adv: "seeded", AdvSeed: r.next(), T0: int64(r.next() >> 2), Entropy: r.next(), Rate: pick(r, int64(0), 0, 20, 100_000)}}
 	if o.P1 == "greedy-random" {
 		// the outcome is a function of the clock: sample several clock values per input
 		for i := 0; i < 3; i++ {
